@@ -140,7 +140,7 @@ def check_c19(seed, tier):
     install(TFS, HOLDER)
     viol, evals, distinct, samples = [], 0, set(), []
     budget = 40 if tier == "quick" else 700
-    for scenario in ("same-variable", "different-variables", "pickled-copy", "three-threads", "single-chunks"):
+    for scenario in ("same-variable", "different-variables", "pickled-copy", "three-threads", "single-chunks", "same-selection"):
         level = rng.choice(["1.1", "1.5"])
         cfg = {"seed": rng.randrange(10**9), "level": level, "images": [("HH", None), ("HV", None)], "n_lines": 6, "n_pixels": 3}
         prod = products.build(cfg)
@@ -155,6 +155,8 @@ def check_c19(seed, tier):
                 sels = [("HH", {"rows": slice(0, 2)}), ("HH", {"rows": slice(4, 6)}), ("HV", {"rows": 3})]
             if scenario == "single-chunks":
                 sels = [("HH", {"rows": slice(2, 4)}), ("HV", {"rows": slice(2, 4)})]
+            if scenario == "same-selection":
+                sels = [("HH", {"rows": slice(4, 6)}), ("HH", {"rows": slice(4, 6)})]
             trees = [t] * len(sels)
             if scenario == "pickled-copy":
                 trees = [t, pickle.loads(pickle.dumps(t))]
@@ -162,6 +164,10 @@ def check_c19(seed, tier):
             prefix = []
             count = 0
             while prefix is not None and count < budget:
+                # primer: a sequential load of some OTHER selection right before the concurrent phase (whatever a previous
+                # load leaves behind — a memo, a handle — must not leak into the racing loads)
+                for g0 in {g for g, _ in sels}:
+                    trees[0][f"imagery/{g0}/data"].isel(rows=slice(0, 2)).values
                 s = Sched(len(sels), prefix)
                 HOLDER["s"] = s
                 got = [None] * len(sels)
